@@ -182,7 +182,15 @@ func RunModel(conf *cfg.Config, ops []probe.Op, env map[string]string) []Expect 
 			}
 			// conversion to the declared type: only judged when the dynamic type is the declared one
 			if err == nil && s.Type != nil && !it.Assignable(v, *s.Type) {
-				it.Unknown = "dynamic type differs from the declared getter type"
+				if it.SurelyInconvertible(v, *s.Type) {
+					// the object cannot be converted to T: every accessor has to say so (an error, or a panic from the Must variants)
+					err = &ref.ErrM{Why: "the service's dynamic type cannot be converted to the declared getter type"}
+					if must {
+						e.Panic = true
+					}
+				} else {
+					it.Unknown = "dynamic type differs from the declared getter type"
+				}
 			}
 		case "istagged":
 			e.Judged = true
